@@ -74,6 +74,7 @@ def parseUpdSteps (s : String) : List UpdStep :=
     if st.startsWith "set:" then UpdStep.set (st.drop 4).toString
     else if st = "del" then .del
     else if st.startsWith "delif:" then .delif (st.drop 6).toString
+    else if st.startsWith "setifnil:" then .setifnil (st.drop 9).toString
     else if st = "cancel" then .cancel
     else if st = "err" then .err
     else if st = "retry" then .retry
